@@ -94,7 +94,11 @@ func expandArgs(specs []string) [][]int {
 }
 
 func loadSpecs() []HarnessSpec {
-	data, err := os.ReadFile(filepath.Join(verifRoot, "harness", "specs.json"))
+	specPath := filepath.Join(verifRoot, "harness", "specs.json")
+	if p := os.Getenv("GOSYM_SPECS"); p != "" {
+		specPath = p // experiments only: the registered checks always read harness/specs.json
+	}
+	data, err := os.ReadFile(specPath)
 	if err != nil {
 		fatalf("cannot read specs: %v", err)
 	}
